@@ -1,6 +1,7 @@
 import PdshVerif.Base.Hex
 import PdshVerif.Opt.Wcoll
 import PdshVerif.Opt.WcollSpec
+import PdshVerif.Opt.WcollTopFd
 import Driver.Util
 
 /-! line protocol of the wcoll engine (one case per line, fields separated by blanks, byte strings
@@ -8,9 +9,12 @@ in hex, `~` = absent / empty list)
 
 `pdshmodel wcoll model`:
    MODE STDIN ENV NARGS ARG... NFILES (PATH R CONTENT)...
-   MODE = F<size> (fgets with a buffer of <size> bytes) or W (whole lines); ARG = one -w optarg (HEX) or
+   MODE = F<size> (fgets with a buffer of <size> bytes, every piece parsed on its own), G<size> (the repaired
+   reader as written: fgets pieces of a <size>-byte buffer glued until a newline) or W (whole lines); ARG = one -w optarg (HEX) or
    one -x optarg (X followed by HEX)
-   answer: STATUS NWARN CREATED EXPRS EXCL OPENED   (STATUS ok|fatal|starved; lists comma separated)
+   a MODE ending in `+c`: `read_wcoll` closes the stream it opened (F10-TOPFD repaired)
+   answer: STATUS NWARN CREATED EXPRS EXCL OPENED TOPOPEN REGEX  (STATUS ok|fatal|starved; lists comma separated;
+   TOPOPEN = streams `read_wcoll` itself left open, `Opt/WcollTopFd.lean`)
 `pdshmodel wcoll spec`:
    STDIN ENV NSRC SRC... NFILES (PATH R CONTENT)...     SRC = w:HEX | f:HEX | s | x:HEX (exclusion file)
    answer: STATUS SKIPPED EXPRS EXCLUDED                 (STATUS ok|error)
@@ -23,6 +27,10 @@ abbrev Str := List Char
 def hx (s : Str) : String := Hex.encodeChars s
 def hxs (l : List Str) : String := if l.isEmpty then "~" else ",".intercalate (l.map hx)
 def unhx (s : String) : Option Str := Hex.decodeToChars s
+/-- `regex_list`: `+HEX` (a positive pattern: keep the names that match) or `-HEX` (a pattern behind a dash: drop
+them), comma separated -/
+def hxr (l : List (Bool × Str)) : String :=
+  if l.isEmpty then "~" else ",".intercalate (l.map fun p => (if p.1 then "-" else "+") ++ hx p.2)
 def optStr (s : String) : Option (Option Str) := if s = "~" then some none else (unhx s).map some
 
 def parseFiles : Nat → List String → Option (Wcoll.FS × List String)
@@ -43,9 +51,12 @@ def runModel (line : String) : String :=
   match Driver.words line with
   | mode :: stdin :: env :: nargs :: rest =>
     let r : Option String := do
+      let closeTop := mode.endsWith "+c"
+      let mode := if closeTop then (mode.dropRight 2) else mode
       let mode : Wcoll.LineMode ←
         if mode = "W" then some .whole
-        else if mode.startsWith "F" then (mode.drop 1).toString.toNat?.map .fgets else none
+        else if mode.startsWith "F" then (mode.drop 1).toString.toNat?.map .fgets
+        else if mode.startsWith "G" then (mode.drop 1).toString.toNat?.map .glued else none
       let stdin ← optStr stdin
       let env ← optStr env
       let nargs ← nargs.toNat?
@@ -56,9 +67,10 @@ def runModel (line : String) : String :=
       | nf :: rest =>
         let nf ← nf.toNat?
         let (fs, _) ← parseFiles nf rest
-        let st := Wcoll.assembleOpts mode fs (stdin.getD []) args env
+        let stT := Wcoll.assembleOptsT closeTop mode fs (stdin.getD []) args env
+        let st := stT.1
         let status := if st.starved then "starved" else if st.fatal then "fatal" else "ok"
-        pure s!"{status} {st.nwarn} {if st.created then 1 else 0} {hxs st.exprs} {hxs st.excl} {hxs st.opened.flatten}"
+        pure s!"{status} {st.nwarn} {if st.created then 1 else 0} {hxs st.exprs} {hxs st.excl} {hxs st.opened.flatten} {stT.2} {hxr st.regex}"
       | [] => none
     r.getD "bad-op"
   | _ => "bad-op"
